@@ -504,7 +504,36 @@ def rule_update_when_flagged(ctx, rule='R15.11'):
     ctx.covered(rule, 'tree updates in reb_simulation_step are reached whenever tree_needs_update is raised', n, floor=2)
 
 
+def rule_leaf_occupancy(ctx, rule='R15.13'):
+    """R15.13: every particle of the array is the occupant of exactly one leaf, and the tree update finds particles (also the
+    ones flagged for removal) only through their leaf. In reb_tree_add_particle_to_cell a leaf's occupant `node->pt` is
+    therefore set to the new particle only in a freshly allocated cell; an occupied leaf is split (both particles handed
+    down, pt set to the interior count) - its occupant is never simply replaced, which would orphan the old particle: it
+    stays in the array for ever, N is one too large and its hash is still found."""
+    from . import pathcond
+    tu = cfront.load_tu('tree.c')
+    fn = tu.func('reb_tree_add_particle_to_cell')
+    ps = cfront.params(fn)
+    node = [p_['name'] for p_ in ps if 'reb_treecell' in qtype(p_)]
+    idx = [p_['name'] for p_ in ps if qtype(p_).strip() in ('int', 'const int')]
+    anchor(node and idx, 'cell and particle-index parameters of reb_tree_add_particle_to_cell')
+    node, pt = node[0], idx[0]
+    pc = pathcond.conditions(fn)
+    n = 0
+    for e in walk(cfront.body(fn)):
+        if is_assign(e) and e['opcode'] == '=' and render(e['inner'][0]).replace(' ', '') == node + '.pt' and render(e['inner'][1]).replace(' ', '').strip('()') == pt:
+            n += 1
+            cs = [c.replace(' ', '') for c in pc.get(id(e), [])]
+            fresh = any(re.match(r'^\(?%s==(0|NULL|\(\(void\*\)0\))\)?$' % re.escape(node), c) or c in ('(!%s)' % node, '!%s' % node) for c in cs)
+            if not fresh:
+                ctx.report(rule, 'tree:add:replace', 'src/tree.c:%s reb_tree_add_particle_to_cell' % line_of(e),
+                           'the occupant of an existing cell is replaced by the new particle (conditions: %s): the particle that sat in the leaf is no longer reachable from the tree, so the tree update never moves, re-inserts or removes it again' % cs)
+    anchor(n >= 1, 'a new cell takes the particle as its occupant (node->pt = pt)')
+    ctx.covered(rule, 'a leaf\'s occupant is set only in a freshly allocated cell', n, floor=1)
+
+
 def run(ctx):
+    rule_leaf_occupancy(ctx)
     rule_update_when_flagged(ctx)
     rule_moments_every_time(ctx)
     from . import c02 as _c02
